@@ -215,7 +215,9 @@ def rand_iloc_key(rng, n, allow_int=True):
 
 def rand_loc_key(rng, labels, allow_single=True, absent=0.06):
     n = len(labels)
-    absent_label = ['s', 'ZZ'] if (not labels or labels[0][0] != 'i') else ['i', 999]
+    absent_label = ['s', 'ZZ'] if (not labels or labels[0][0] != 'i') else rng.choice([['i', 999], ['i', 999], ['i', -1], ['i', -2]])
+    if absent_label in labels:
+        absent_label = ['i', 999]
 
     def lab():
         if n == 0 or rng.random() < absent:
